@@ -637,9 +637,8 @@ func CheckGoFlat(where string, files []*gopygen.GoFile, ds []GPDataStruct) ([]GP
 		}
 	}
 	v.ms = newGPMultiset(byName, ds)
-	for name, n := range v.ms.want {
+	for _, n := range v.ms.want {
 		if n > 1 {
-			_ = name
 			c.st.Info["same_name_declarations_planted"] += n
 		}
 	}
@@ -655,6 +654,7 @@ func CheckGoFlat(where string, files []*gopygen.GoFile, ds []GPDataStruct) ([]GP
 type gpPyView struct {
 	classes []GPDataStruct
 	funcs   []GPFunction
+	ms      gpMultiset // zero value: every name is planted once
 }
 
 func annCount(as []GPAnnotation, name string) int {
@@ -689,9 +689,10 @@ func (c *gpChecker) pyDecos(kind string, ds []gopygen.PyDeco, own []GPAnnotation
 }
 
 func (c *gpChecker) pyModule(m *gopygen.PyModule, v gpPyView, flat bool) {
-	classFuncs := func(name, exceptClass string) (n int, where string) {
+	// own >= 0: every entry but the class's own one; own < 0: every entry under another name
+	classFuncs := func(name, exceptClass string, own int) (n int, where string) {
 		for i := range v.classes {
-			if v.classes[i].NodeName == exceptClass {
+			if own >= 0 && i == own || own < 0 && v.classes[i].NodeName == exceptClass {
 				continue
 			}
 			for _, fn := range v.classes[i].Functions {
@@ -714,32 +715,35 @@ func (c *gpChecker) pyModule(m *gopygen.PyModule, v gpPyView, flat bool) {
 	}
 	for _, cl := range m.Classes() {
 		what := "class " + cl.Name
-		var es []*GPDataStruct
+		var es []int
 		for i := range v.classes {
 			if v.classes[i].NodeName == cl.Name {
-				es = append(es, &v.classes[i])
+				es = append(es, i)
 			}
 		}
-		own := c.once("py_class", len(es), "py/class", "", what)
-		if own {
-			c.pyDecos("class", cl.Decos, es[0].Annotations, what, v, es[0])
+		own := -1
+		if c.times("py_class", len(es), v.ms.wantOf(cl.Name), "py/class", "", what) {
+			own = v.ms.entryOf(cl, es)
+		}
+		if own >= 0 {
+			c.pyDecos("class", cl.Decos, v.classes[own].Annotations, what, v, nil)
 		}
 		for _, me := range cl.Methods() {
 			mwhat := fmt.Sprintf("method %s of %s", me.Name, what)
-			if own {
+			if own >= 0 {
 				n := 0
 				var node *GPFunction
-				for i := range es[0].Functions {
-					if es[0].Functions[i].Name == me.Name {
+				for i := range v.classes[own].Functions {
+					if v.classes[own].Functions[i].Name == me.Name {
 						n++
-						node = &es[0].Functions[i]
+						node = &v.classes[own].Functions[i]
 					}
 				}
 				if c.once("py_method", n, "py/method", "", mwhat) {
 					c.pyDecos("method", me.Decos, node.Annotations, mwhat, v, node)
 				}
 			}
-			if n, where := classFuncs(me.Name, cl.Name); n > 0 {
+			if n, where := classFuncs(me.Name, cl.Name, own); n > 0 {
 				c.bad("py/method-under-other-class", "%s is listed under class %s", mwhat, where)
 			}
 			if n, _ := topLevel(me.Name); n > 0 {
@@ -750,18 +754,19 @@ func (c *gpChecker) pyModule(m *gopygen.PyModule, v gpPyView, flat bool) {
 	for _, fn := range m.Funcs() {
 		what := "function " + fn.Name
 		n, node := topLevel(fn.Name)
+		want := v.ms.wantOf(fn.Name)
 		if flat && !gpExported(fn.Name) {
 			c.st.Info["flat_lowercase_functions_planted"]++
-			if n > 1 {
+			if n > want {
 				c.bad("py/function-duplicated", "%s is listed %d times", what, n)
 			}
-			if n == 1 {
+			if n == want {
 				c.st.Info["flat_lowercase_functions_listed"]++
 			}
-		} else if c.once("py_func", n, "py/function", "", what) && !flat {
+		} else if c.times("py_func", n, want, "py/function", "", what) && !flat {
 			c.pyDecos("function", fn.Decos, node.Annotations, what, v, node)
 		}
-		if k, where := classFuncs(fn.Name, ""); k > 0 {
+		if k, where := classFuncs(fn.Name, "", -1); k > 0 {
 			c.bad("py/function-listed-as-method", "%s is listed as a method of class %s", what, where)
 		}
 	}
@@ -891,6 +896,29 @@ func CheckPyFlat(where string, mods []*gopygen.PyModule, ds []GPDataStruct) ([]G
 	v := gpPyView{classes: ds}
 	for _, d := range ds {
 		v.funcs = append(v.funcs, GPFunction{Name: d.NodeName})
+	}
+	// the same class / function name may be declared in several modules of the scan
+	byName := map[string][]gpPlanted{}
+	for _, m := range mods {
+		for _, cl := range m.Classes() {
+			p := gpPlanted{ptr: cl}
+			for _, d := range cl.Decos {
+				p.members = append(p.members, d.Name)
+			}
+			for _, me := range cl.Methods() {
+				p.members = append(p.members, me.Name)
+			}
+			byName[cl.Name] = append(byName[cl.Name], p)
+		}
+		for _, fn := range m.Funcs() {
+			byName[fn.Name] = append(byName[fn.Name], gpPlanted{ptr: fn})
+		}
+	}
+	v.ms = newGPMultiset(byName, ds)
+	for _, n := range v.ms.want {
+		if n > 1 {
+			c.st.Info["same_name_declarations_planted"] += n
+		}
 	}
 	for _, m := range mods {
 		c.pyModule(m, v, true)
